@@ -44,7 +44,7 @@ ASSUMPTIONS = [
 ]
 CASES = {'quick': 2400, 'thorough': 40000}
 TIME = {'quick': 70, 'thorough': 540}
-MIN_NONTRIVIAL = {'quick': 1500, 'thorough': 3000}
+MIN_NONTRIVIAL = {'quick': 1000, 'thorough': 2500}
 REQUIRED = ('range_forms_checked', 'range_plus_forms', 'range_interval_forms',
             'full_deals_checked', 'hilo_deals', 'no_low_deals',
             'engine_showdowns_compared', 'partial_deals_checked',
